@@ -29,13 +29,14 @@ import pickle
 import random
 import sys
 import time
+import weakref
 
 LANGS = ['java', 'kotlin', 'groovy', 'scala']
 HERE = os.path.dirname(os.path.dirname(os.path.abspath(__file__)))
 
 # fixed base seed lists (VERIF_SEED only adds the random histories and a few extra seeds)
-QUICK_SEEDS = list(range(0, 6))
-THOROUGH_SEEDS = list(range(0, 160))
+QUICK_SEEDS = list(range(0, 4))
+THOROUGH_SEEDS = list(range(0, 60))
 STAGES = ['generated', 'erased', 'overwritten']
 
 
@@ -51,9 +52,13 @@ def _node_hash(self):
     h = _HASHES.get(id(self))
     if h is None:
         _COUNTER[0] += 1
-        # keep the node alive so that its id is never reused while the table is in use
-        h = _HASHES[id(self)] = (_COUNTER[0], self)
+        # the entry disappears with the node, so that a recycled id never inherits a stale counter
+        h = _HASHES[id(self)] = (_COUNTER[0], weakref.ref(self, _dropper(id(self))))
     return h[0]
+
+
+def _dropper(i):
+    return lambda _ref: _HASHES.pop(i, None)
 
 
 def _reset_hashes():
@@ -214,6 +219,19 @@ def hand_built(env, lang):
         env, lang, [unit1, unit2, after, expr_fun, main],
         lambdas=[(G + ('sink',), l1), (G + ('sink',), l2), (G + ('sink2',), l3), (G + ('after',), l4)])))
 
+    # (4a) the smallest program with a bounded class type parameter handed to a parameterized superclass whose
+    #      abstract function mentions its own parameter
+    T0 = tp.TypeParameter('T', bound=None)
+    src0 = ast.ClassDeclaration('Origin', [], ast.ClassDeclaration.ABSTRACT, fields=[], functions=[
+        ast.FunctionDeclaration('take', [ast.ParameterDeclaration('x', T0)], Void, None, METHOD, is_final=False)],
+        is_final=False, type_parameters=[T0])
+    cap0 = ast.ClassDeclaration('Cap', [], ast.ClassDeclaration.REGULAR, fields=[], functions=[], is_final=False)
+    X0 = tp.TypeParameter('X', bound=cap0.get_type())
+    sub0 = ast.ClassDeclaration('Derived', [ast.SuperClassInstantiation(src0.get_type().new([X0]), [])],
+                                ast.ClassDeclaration.ABSTRACT, fields=[], functions=[], is_final=False,
+                                type_parameters=[X0])
+    out.append(('minimal-bounded-parameter-to-superclass', _program(env, lang, [cap0, src0, sub0])))
+
     # (4) bounded type parameters inherited through a parameterized superclass; function reference without a
     #     receiver inside a method (the IR helpers get_abstract_functions / get_callable_functions run on these) ----
     T = tp.TypeParameter('T', bound=None)
@@ -311,8 +329,13 @@ def struct_diff(x, y, path='program', seen=None, depth=0):
     return None
 
 
+CFG_A = ('src.alpha', {'cast_numbers': False})
+CFG_B = ('src.beta', {'cast_numbers': True})
+CFG_N = (None, {})
+
+
 class Checker:
-    """evaluates (U) and (T) for programs; collects one violation per check name"""
+    """evaluates (U) and (T); collects one violation per check name (all of them with keep_all)"""
 
     def __init__(self, env, stop_first=False, keep_all=False):
         self.env = env
@@ -323,6 +346,7 @@ class Checker:
         self.counts = {}
         self.skipped_raises = {}
         self.translations = 0
+        self._refs = {}
 
     # -- primitives ------------------------------------------------------------------------------------------
     def mk(self, tl, cfg):
@@ -341,94 +365,184 @@ class Checker:
         self.counts[name] = self.counts.get(name, 0) + 1
         if not self.keep_all and any(v['check'] == 'bounded[%s]' % name for v in self.violations):
             return
-        v = dict(check='bounded[%s]' % name, function=ident.pop('function'))
+        v = dict(check='bounded[%s]' % name)
         v.update(ident)
         v.update(kw)
         self.violations.append(v)
         if self.stop_first:
             raise Stop()
 
-    # -- the contract on one (program, translator language, configuration) -------------------------------------
-    def check(self, prog, where, tl, cfg, other_cfg, histories, foreign=True):
-        """where: dict identifying the program (seed/lang/stage or hand-built name).  histories: list of
-        (description, [programs]) translated by the same translator object before `prog`."""
-        env = self.env
-        ident = dict(where)
-        ident.update(function='src.translators.%s.%sTranslator.visit_program (via src.utils.translate_program)'
-                     % (tl, tl.capitalize()), translator=tl, package=cfg[0], options=dict(cfg[1]))
+    def ref_text(self, tl, cfg, key, prog):
+        """reference text of a (small, hand-built) history program: fresh translator, nothing else involved"""
+        k = (tl, cfg[0], key)
+        if k not in self._refs:
+            self._refs[k] = self.tr(self.mk(tl, cfg), prog)
+        return self._refs[k]
+
+    # -- the contract on one program ----------------------------------------------------------------------------
+    def check_program(self, prog, where, home, hand, pool, rnd, depth):
+        """where: dict identifying the program.  hand: {translator language: [(name, program)]} small programs used
+        as histories and as follow-up targets.  pool: [(description, program)] further history programs.
+        depth: 'quick' | 'thorough' | 'hand' (selects how many histories / configurations are enumerated)."""
+        order = [home] + [l for l in LANGS if l != home]
         b0 = pickle.dumps(prog)
         pristine = pickle.loads(b0)
 
-        def unchanged(after):
+        def ident(tl, cfg):
+            d = dict(function='src.translators.%s.%sTranslator.visit_program (via src.utils.translate_program)'
+                     % (tl, tl.capitalize()))
+            d.update(where)
+            d.update(translator=tl, package=cfg[0], options=dict(cfg[1]))
+            return d
+
+        def unchanged(tl, cfg, after):
             self.evals += 1
             b = pickle.dumps(prog)
-            if b != b0:
-                d = struct_diff(pickle.loads(b0), prog)
-                self.report('program-unchanged', dict(ident), after=after,
-                            expected='pickle.dumps(program) identical before and after (%d bytes)' % len(b0),
-                            actual='%d bytes; first structural difference: %s' % (
-                                len(b), d or 'none found (object sharing / identity of sub-objects changed)'))
-                return False
-            return True
+            if b == b0:
+                return
+            d = struct_diff(pickle.loads(b0), prog)
+            exp = 'pickle.dumps(program) identical before and after (%d bytes)' % len(b0)
+            if d:
+                self.report('program-unchanged:structure', ident(tl, cfg), after=after, expected=exp,
+                            actual='%d bytes; first structural difference: %s' % (len(b), d))
+            else:
+                self.report('program-unchanged:sharing', ident(tl, cfg), after=after, expected=exp,
+                            actual='%d bytes; same shape and leaf values, but an attribute of a program-owned object '
+                                   'was re-bound (sharing of sub-objects changed): %s' % (len(b), rebound(cfg)))
 
-        def same(name, text, how):
+        def rebound(cfg):
+            """diagnosis only: repeat single translations on a private copy and name the re-bound attributes"""
+            try:
+                q = pickle.loads(b0)
+                m0 = {}
+                _idmap(q, 'program', m0, {})
+                for l2 in order:
+                    self.tr(self.mk(l2, cfg), q)
+                    m1 = {}
+                    _idmap(q, 'program', m1, {})
+                    ch = [k for k in m0 if isinstance(m0[k], int) and m1.get(k) != m0[k]]
+                    if ch:
+                        return 'on a copy, the %s translator re-binds %s' % (l2, ch[:3])
+                return 'not reproduced on a copy with single translations'
+            except Exception as ex:
+                return 'diagnosis failed: %r' % (ex,)
+
+        def same(name, tl, cfg, a, text, how, **kw):
             self.evals += 1
             if text != a:
-                self.report(name, dict(ident), scenario=how, **_excerpt(a, text))
+                self.report(name, ident(tl, cfg), scenario=how, **dict(_excerpt(a, text), **kw))
 
-        t1 = self.mk(tl, cfg)
-        a = self.tr(t1, prog)
-        if not isinstance(a, str):
-            self.skipped_raises[(tl, where.get('lang'))] = self.skipped_raises.get((tl, where.get('lang')), 0) + 1
-            unchanged('a translation that raised %s' % (a,))
-            return None
-        unchanged('first translation')
-        same('same-translator-twice', self.tr(t1, prog), 'second translation with the same translator object')
-        same('same-translator-twice', self.tr(t1, prog), 'third translation with the same translator object')
-        unchanged('three translations with one translator object')
-        same('fresh-translator', self.tr(self.mk(tl, cfg), prog), 'fresh translator object, same configuration')
-        for desc, hist in histories:
-            t2 = self.mk(tl, cfg)
-            ok = True
-            for h in hist:
-                ok = ok and isinstance(self.tr(t2, h), str)
-            if ok:
-                same('after-other-programs', self.tr(t2, prog), 'fresh translator object that first translated: ' + desc)
-            t3 = self.mk(tl, cfg)
-            ok = isinstance(self.tr(t3, prog), str)
-            for h in hist:
-                ok = ok and isinstance(self.tr(t3, h), str)
-            if ok:
-                same('after-other-programs', self.tr(t3, prog),
-                     'translator object that translated the program, then: ' + desc)
-        unchanged('translations interleaved with other programs')
-        if foreign:
-            for l2 in LANGS:
-                if l2 == tl:
+        def followers(t, tl, cfg, how):
+            """the small programs translated by a translator object that already translated `prog`"""
+            for n, h in hand[tl]:
+                if h is prog:
                     continue
-                f = self.tr(self.mk(l2, cfg), prog)
-                unchanged('translation to %s' % l2)
-                how = 'after translating the program to %s%s' % (l2, '' if isinstance(f, str) else ' (raised)')
-                same('after-other-language', self.tr(t1, prog), how + ', same translator object as the first time')
-                same('after-other-language', self.tr(self.mk(tl, cfg), prog), how + ', fresh translator object')
-        if other_cfg is not None:
-            self.tr(self.mk(tl, other_cfg), prog)
-            same('after-other-configuration', self.tr(self.mk(tl, cfg), prog),
-                 'fresh translator after a translator with package=%r options=%r translated the program' % other_cfg)
-        same('pristine-copy', self.tr(self.mk(tl, cfg), pristine),
-             'fresh translator on a pickle copy of the program taken before its first translation')
-        unchanged('all scenarios')
-        return a
+                r = self.ref_text(tl, cfg, n, h)
+                if isinstance(r, str):
+                    same('after-other-programs', tl, cfg, r, self.tr(t, h),
+                         'hand-built program %r translated by a translator object that ' % n + how,
+                         compared_program='hand:' + n)
+
+        def history(tl, cfg, a, desc, progs, used=None):
+            t = used or self.mk(tl, cfg)
+            if all([isinstance(self.tr(t, h), str) for h in progs]):
+                same('after-other-programs', tl, cfg, a, self.tr(t, prog),
+                     ('translator object that translated the program, then: ' if used else
+                      'fresh translator object that first translated: ') + desc)
+
+        def block(tl, cfg, full):
+            """first / second (/ third) translation, fresh object, hand-built programs before and after"""
+            t1 = self.mk(tl, cfg)
+            a = self.tr(t1, prog)
+            if not isinstance(a, str):
+                k = (tl, where.get('lang'))
+                self.skipped_raises[k] = self.skipped_raises.get(k, 0) + 1
+                return None, None
+            unchanged(tl, cfg, 'first translation (%s)' % tl)
+            same('same-translator-twice', tl, cfg, a, self.tr(t1, prog),
+                 'second translation with the same translator object')
+            if full:
+                same('fresh-translator', tl, cfg, a, self.tr(self.mk(tl, cfg), prog),
+                     'fresh translator object, same configuration')
+            followers(t1, tl, cfg, 'translated the program before')
+            others = [(n, h) for n, h in hand[tl] if h is not prog]
+            same('after-other-programs', tl, cfg, a, self.tr(t1, prog),
+                 'translator object that translated the program, then all hand-built programs (%s)'
+                 % ', '.join(n for n, _ in others))
+            if full:
+                history(tl, cfg, a, 'all hand-built programs', [h for _, h in others])
+            unchanged(tl, cfg, 'repeated translations (%s)' % tl)
+            return t1, a
+
+        T, A = {}, {}
+        for tl in order:
+            T[tl], A[tl] = block(tl, CFG_A, full=(tl == home or depth != 'quick'))
+        ok = [tl for tl in order if A[tl] is not None]
+        # by now every translator has translated the program: "after translating it to another language"
+        for tl in ok:
+            how = 'after the translators of %s translated the program' % ', '.join(l for l in ok if l != tl)
+            same('after-other-language', tl, CFG_A, A[tl], self.tr(T[tl], prog), how + ', same translator object')
+            same('after-other-language', tl, CFG_A, A[tl], self.tr(self.mk(tl, CFG_A), prog),
+                 how + ', fresh translator object')
+        unchanged(home, CFG_A, 'translations by all four translators')
+        for tl in ok:
+            deep = depth == 'hand' or (depth == 'thorough' and tl == home)
+            if deep:                                  # every hand-built program alone, every pool program alone
+                for n, h in hand[tl]:
+                    if h is not prog:
+                        history(tl, CFG_A, A[tl], 'hand:' + n, [h])
+                        history(tl, CFG_A, A[tl], 'hand:' + n, [h], used=T[tl])
+                for n, h in pool:
+                    history(tl, CFG_A, A[tl], n, [h])
+            elif tl == home and pool:
+                history(tl, CFG_A, A[tl], '; then '.join(n for n, _ in pool), [h for _, h in pool])
+            full_pool = pool + [('hand:' + n, h) for n, h in hand[tl] if h is not prog]
+            for _ in range({'quick': 1 if tl == home else 0, 'thorough': 3 if tl == home else 1, 'hand': 2}[depth]):
+                pick = [rnd.choice(full_pool) for _ in range(rnd.randint(2, 4))]
+                history(tl, CFG_A, A[tl], '; then '.join(n for n, _ in pick), [h for _, h in pick],
+                        used=T[tl] if rnd.random() < 0.5 else None)
+            if tl == home or depth != 'quick':
+                # other configuration of the same translator class in between
+                second = CFG_B if tl in (home, 'groovy') or depth == 'hand' else None
+                if second:
+                    tb, ab = block(tl, second, full=depth != 'quick')
+                    self.tr(self.mk(tl, CFG_N), prog)
+                    if ab is not None:
+                        same('after-other-configuration', tl, second, ab, self.tr(tb, prog),
+                             'same translator object, after translators with package=%r and package=None translated '
+                             'the program' % CFG_A[0])
+                same('after-other-configuration', tl, CFG_A, A[tl], self.tr(self.mk(tl, CFG_A), prog),
+                     'fresh translator after translators of other package / options translated the program')
+                same('after-other-configuration', tl, CFG_A, A[tl], self.tr(T[tl], prog),
+                     'same translator object after translators of other package / options translated the program')
+                same('pristine-copy', tl, CFG_A, A[tl], self.tr(self.mk(tl, CFG_A), pristine),
+                     'fresh translator on a pickle copy of the program taken before its first translation')
+        unchanged(home, CFG_A, 'all scenarios')
+        return A[home]
+
+
+def _idmap(x, path, out, seen):
+    if isinstance(x, (str, bytes, int, float, bool, type(None))):
+        return
+    if id(x) in seen:
+        out[path] = ('ref', seen[id(x)])
+        return
+    seen[id(x)] = path
+    out[path] = id(x)
+    if isinstance(x, (list, tuple)):
+        for i, u in enumerate(x):
+            _idmap(u, '%s[%d]' % (path, i), out, seen)
+    elif isinstance(x, dict):
+        for k, u in x.items():
+            _idmap(u, '%s[%r]' % (path, k), out, seen)
+    elif hasattr(x, '__dict__') and not isinstance(x, (set, frozenset)):
+        for k, u in x.__dict__.items():
+            _idmap(u, '%s.%s' % (path, k), out, seen)
 
 
 # ---------------------------------------------------------------------------------------------------------------
 # the driver
 # ---------------------------------------------------------------------------------------------------------------
-
-CFG_A = ('src.alpha', {'cast_numbers': False})
-CFG_B = ('src.beta', {'cast_numbers': True})
-CFG_N = (None, {})
-
 
 def _nontrivial(env, prog, text):
     """rule: >= 1 class, >= 1 function with a block body, home-language text of >= 10 lines"""
@@ -446,34 +560,31 @@ def _copy(p):
     return pickle.loads(pickle.dumps(p))
 
 
+def _result(ck, fps, trivial, samples, programs):
+    return dict(evals=ck.evals, translations=ck.translations, violations=ck.violations, counts=ck.counts,
+                skipped=ck.skipped_raises, fingerprints=fps, trivial=trivial, samples=samples, programs=programs)
+
+
 def run_hand(env, vseed, stop_first=False, keep_all=False):
     """contract on the hand-built programs; histories are the other hand-built programs"""
     _reset_hashes()
     env.utils.random.r.seed(977)
     env.utils.random.reset_word_pool()
     ck = Checker(env, stop_first, keep_all)
-    progs = {lang: hand_built(env, lang) for lang in LANGS}
+    rnd = random.Random(vseed * 7919 + 13)
+    hand = {lang: hand_built(env, lang) for lang in LANGS}
     fps, samples = {}, []
     try:
         for lang in LANGS:
-            for name, p in progs[lang]:
+            for name, p in hand[lang]:
+                fps[hashlib.sha1(pickle.dumps(p)).hexdigest()] = True     # every hand-built shape is non-trivial
                 where = dict(seed='hand', lang=lang, stage='hand:' + name)
-                for tl in LANGS:
-                    others = [(n, q) for n, q in progs[tl] if q is not p]
-                    hist = [(n, [q]) for n, q in others]
-                    hist.append(('all other hand-built programs', [q for _, q in others]))
-                    hist.append(('all other hand-built programs, reversed', [q for _, q in reversed(others)]))
-                    for cfg, oc in ((CFG_A, CFG_B), (CFG_B, CFG_N), (CFG_N, CFG_A)):
-                        a = ck.check(p, where, tl, cfg, oc, hist)
-                        if tl == lang and cfg is CFG_A:
-                            fps[hashlib.sha1(pickle.dumps(p)).hexdigest()] = True   # every shape is non-trivial
-                            if a is not None and len(samples) < 1 and lang == 'kotlin':
-                                samples.append(dict(program='hand:' + name, language=lang,
-                                                    text_head=a.split('\n')[:6]))
+                a = ck.check_program(p, where, lang, hand, [], rnd, 'hand')
+                if a is not None and len(samples) < 1 and lang == 'kotlin':
+                    samples.append(dict(program='hand:' + name, language=lang, text_head=a.split('\n')[:6]))
     except Stop:
         pass
-    return dict(evals=ck.evals, translations=ck.translations, violations=ck.violations, counts=ck.counts,
-                skipped=ck.skipped_raises, fingerprints=fps, trivial=0, samples=samples, programs=len(fps))
+    return _result(ck, fps, 0, samples, len(fps))
 
 
 def run_seed(env, seed, tier, vseed, stop_first=False, keep_all=False):
@@ -483,15 +594,14 @@ def run_seed(env, seed, tier, vseed, stop_first=False, keep_all=False):
     R.r.seed(seed)
     ck = Checker(env, stop_first, keep_all)
     rnd = random.Random((vseed + 1) * 1000003 + seed)
-    hand = {lang: [q for _, q in hand_built(env, lang)] for lang in LANGS}
-    hand_names = [n for n, _ in hand_built(env, 'java')]
+    hand = {lang: hand_built(env, lang) for lang in LANGS}
     progs = {}
     for lang in LANGS:
         R.reset_word_pool()
         progs[lang] = env.Generator(language=lang).generate()
     fps, samples, trivial = {}, [], 0
-    earlier = {lang: [] for lang in LANGS}       # copies of earlier stages of the same program
-    current = {lang: _copy(progs[lang]) for lang in LANGS}   # copies used as "other programs" of sibling checks
+    earlier = {lang: [] for lang in LANGS}                    # copies of earlier stages of the same program
+    current = {lang: _copy(progs[lang]) for lang in LANGS}    # copies used as "other programs" of sibling checks
     try:
         for stage in STAGES:
             for lang in LANGS:
@@ -511,41 +621,21 @@ def run_seed(env, seed, tier, vseed, stop_first=False, keep_all=False):
                 # stages do not depend on how many scenarios were evaluated; it is NOT touched between the
                 # translations of the scenarios themselves
                 rng_state = R.r.getstate()
-                for tl in LANGS:
-                    home = tl == lang
-                    siblings = [(l2, current[l2]) for l2 in LANGS if l2 != lang]
-                    pool = ([('hand:' + n, q) for n, q in zip(hand_names, hand[tl])] +
-                            [('the %s program of this seed' % l2, q) for l2, q in siblings] +
-                            [('its own %s stage' % s, q) for s, q in earlier[lang]])
-                    hist = []
-                    if home:
-                        hist += [(n, [q]) for n, q in pool]
-                        hist.append(('all hand-built programs', hand[tl]))
-                        nrand = 2 if tier == 'quick' else 4
-                    else:
-                        hist.append(('all hand-built programs', hand[tl]))
-                        nrand = 1
-                    for _ in range(nrand):
-                        pick = [rnd.choice(pool) for _ in range(rnd.randint(2, 4))]
-                        hist.append(('; then '.join(n for n, _ in pick), [q for _, q in pick]))
-                    cfgs = [(CFG_A, CFG_B)] + ([(CFG_B, CFG_N)] if home and (tier != 'quick' or tl == 'groovy') else [])
-                    for cfg, oc in cfgs:
-                        a = ck.check(p, where, tl, cfg, oc, hist, foreign=True)
-                        if home and cfg is CFG_A:
-                            if _nontrivial(env, p, a):
-                                fps[fp] = True
-                            else:
-                                trivial += 1
-                            if a is not None and len(samples) < 1 and seed == 1 and lang == 'kotlin':
-                                samples.append(dict(program='seed %d, %s, %s' % (seed, lang, stage),
-                                                    text_lines=a.count('\n') + 1, text_head=a.split('\n')[:5]))
+                pool = ([('the %s program of this seed' % l2, current[l2]) for l2 in LANGS if l2 != lang] +
+                        [('its own %s stage' % s, q) for s, q in earlier[lang]])
+                a = ck.check_program(p, where, lang, hand, pool, rnd, tier)
+                if _nontrivial(env, p, a):
+                    fps[fp] = True
+                else:
+                    trivial += 1
+                if a is not None and len(samples) < 1 and seed == 1 and lang == 'kotlin':
+                    samples.append(dict(program='seed %d, %s, %s' % (seed, lang, stage),
+                                        text_lines=a.count('\n') + 1, text_head=a.split('\n')[:5]))
                 earlier[lang].append((stage, current[lang]))
                 R.r.setstate(rng_state)
     except Stop:
         pass
-    return dict(evals=ck.evals, translations=ck.translations, violations=ck.violations, counts=ck.counts,
-                skipped=ck.skipped_raises, fingerprints=fps, trivial=trivial, samples=samples,
-                programs=len(STAGES) * len(LANGS))
+    return _result(ck, fps, trivial, samples, len(STAGES) * len(LANGS))
 
 
 # -- process pool ---------------------------------------------------------------------------------------------------
@@ -559,33 +649,39 @@ def _init(repo):
 
 def _job(args):
     kind, seed, tier, vseed, stop_first = args
-    t0 = time.time()
+    t0, c0 = time.time(), time.process_time()
+    global _ENV
     try:
+        # a freshly imported copy of the code under test for every job: module / class level state left behind by
+        # an earlier job of the same worker process must not decide what this job sees
+        _ENV = load(_ENV.repo)
         r = run_hand(_ENV, vseed, stop_first) if kind == 'hand' else run_seed(_ENV, seed, tier, vseed, stop_first)
-    except RecursionError as ex:
-        r = dict(evals=0, translations=0, violations=[], counts={}, skipped={}, fingerprints={}, trivial=0,
-                 samples=[], programs=0, aborted='RecursionError in seed %s' % seed)
     except Exception as ex:   # generation / transformation failed: not an input of this property (C18's business)
         import traceback
+        tb = traceback.extract_tb(ex.__traceback__)
         r = dict(evals=0, translations=0, violations=[], counts={}, skipped={}, fingerprints={}, trivial=0,
-                 samples=[], programs=0, aborted='%s: %s @ %s' % (type(ex).__name__, str(ex)[:80],
-                                                                  traceback.format_exc().strip().split('\n')[-3][:120]))
+                 samples=[], programs=0,
+                 aborted='%s: %s @ %s' % (type(ex).__name__, str(ex)[:80], ' < '.join(
+                     '%s:%d' % (os.path.basename(f.filename), f.lineno) for f in tb[-3:])))
     r['seed'] = seed
     r['seconds'] = time.time() - t0
+    r['cpu'] = time.process_time() - c0
     return r
 
 
 def seeds_for(tier, vseed):
     base = QUICK_SEEDS if tier == 'quick' else THOROUGH_SEEDS
-    extra = random.Random(vseed).sample(range(1000, 100000), 2 if tier == 'quick' else 16)
+    extra = random.Random(vseed).sample(range(1000, 100000), 1 if tier == 'quick' else 6)
     return base + extra
 
 
 def run(tier, seed, stop_first=False, workers=None):
     repo = os.environ.get('HEPH_REPO', '/repo')
     seeds = seeds_for(tier, seed)
+    base = QUICK_SEEDS if tier == 'quick' else THOROUGH_SEEDS
+    # one self-contained job per seed (own RNG seed, own hash counter): the result does not depend on the workers
     jobs = [('hand', 'hand', tier, seed, stop_first)] + [('seed', s, tier, seed, stop_first) for s in seeds]
-    workers = workers or int(os.environ.get('C11_WORKERS', '4' if tier == 'quick' else '12'))
+    workers = workers or int(os.environ.get('C11_WORKERS', '8' if tier == 'quick' else '12'))
     t0 = time.time()
     results = []
     if workers <= 1:
@@ -596,13 +692,12 @@ def run(tier, seed, stop_first=False, workers=None):
                 break
     else:
         import multiprocessing as mp
-        with mp.get_context('spawn').Pool(workers, initializer=_init, initargs=(repo,)) as pool:
+        with mp.get_context('spawn').Pool(min(workers, len(jobs)), initializer=_init, initargs=(repo,)) as pool:
             for r in pool.imap(_job, jobs, chunksize=1):
                 results.append(r)
                 if stop_first and r['violations']:
                     pool.terminate()
                     break
-    evals = sum(r['evals'] for r in results)
     fps = {}
     violations, counts, skipped, samples, aborted = [], {}, {}, [], []
     for r in results:                     # job order = hand-built first, then ascending seed: smallest input first
@@ -613,7 +708,8 @@ def run(tier, seed, stop_first=False, workers=None):
         for k, n in r['counts'].items():
             counts[k] = counts.get(k, 0) + n
         for k, n in r['skipped'].items():
-            skipped['%s translator on %s program' % k] = skipped.get('%s translator on %s program' % k, 0) + n
+            kk = '%s translator on %s program' % k
+            skipped[kk] = skipped.get(kk, 0) + n
         samples += r['samples']
         if r.get('aborted'):
             aborted.append((r['seed'], r['aborted']))
@@ -624,29 +720,34 @@ def run(tier, seed, stop_first=False, workers=None):
     nprog = sum(r['programs'] for r in results)
     rule = (
         '%d seeds (fixed list %d..%d + %d from VERIF_SEED) x 4 generator languages x {generated, erased, overwritten} '
-        '(erasure / overwriting applied in place, as the pipeline does) + 4 hand-built shapes per language (nested '
+        '(erasure, then overwriting, applied in place as the pipeline does) + 5 hand-built shapes per language (nested '
         'functions with 4/5/6 parameters; a class listing an interface before its superclass; expression-bodied '
-        'lambdas as statements in Unit functions; bounded type parameters inherited through a parameterized '
-        'superclass with a receiver-less function reference) = %d programs.  For every program and each of the four '
-        'translators (one or two package/option configurations): reference text = first translation; compared '
-        'byte-for-byte with: same object 2nd and 3rd time; fresh object; fresh and used object after histories of other '
-        'programs (each hand-built program alone, all of them, the programs of the other languages of the seed, '
-        'earlier stages of the same program, random sequences of 2-4 from that pool (VERIF_SEED)); same and fresh '
-        'object after each of the other three translators translated the program; fresh object after a translator '
-        'of another package/options translated it; fresh object on a pickle copy taken before the first translation; '
-        'pickle.dumps(program) compared with its value before the first translation after every group of scenarios.  '
+        'lambdas as statements in Unit functions; a bounded class type parameter handed to a parameterized abstract '
+        'superclass, minimal and with generic methods and a receiver-less function reference) = %d programs.  For '
+        'every program, with each of the four translators: reference text = first translation by a fresh object; '
+        'compared byte-for-byte with: the same object again; a fresh object; the same object after it went on to '
+        'translate the 5 hand-built programs (whose own texts are compared with their references too); a fresh object '
+        'that first translated all hand-built programs; the same and a fresh object after the other three translators '
+        'translated the program; histories made of the programs of the other languages of the seed and of earlier '
+        'stages of the same program; random histories of 2-4 programs from that pool (VERIF_SEED); a second '
+        'package/options configuration (home translator and Groovy cast_numbers) and package=None in between; a fresh '
+        'object on a pickle copy taken before the first translation.  thorough additionally: every hand-built / pool '
+        'program alone as history (fresh and used object), all scenarios for the three foreign translators.  '
+        'pickle.dumps(program) is compared with its value before the first translation after every group of '
+        'scenarios (structure: a structural walk differs; sharing: only the aliasing of sub-objects differs).  '
         'One evaluation = one such comparison.  A program is non-trivial if it declares >= 1 class and >= 1 function '
         'with a block body and its home-language text has >= 10 lines (hand-built shapes count); distinct by sha1 of '
         'pickle bytes.  Not covered: histories containing a translation that raised (not a performed translation; '
         '%d (program, translator) pairs skipped because the first translation raised%s); %d seeds dropped because '
-        'generation or a transformation raised (C18).  utils.random is deliberately NOT reseeded between '
-        'translations (hidden RNG state is part of the history).'
-        % (len(seeds), min(seeds), max(QUICK_SEEDS if tier == 'quick' else THOROUGH_SEEDS),
-           len(seeds) - len(QUICK_SEEDS if tier == 'quick' else THOROUGH_SEEDS), nprog,
+        'generation or a transformation raised (C18).  utils.random is deliberately NOT reseeded between the '
+        'translations of a program (hidden RNG state is part of the history).'
+        % (len(seeds), min(base), max(base), len(seeds) - len(base), nprog,
            sum(skipped.values()), (': ' + repr(skipped)) if skipped else '', len(aborted)))
-    return dict(evaluations=evals, distinct_nontrivial=len(fps), rule=rule, samples=samples[:3],
-                violations=violations, exhaustive=False, programs=nprog,
+    return dict(evaluations=sum(r['evals'] for r in results), distinct_nontrivial=len(fps), rule=rule,
+                samples=samples[:3], violations=violations, exhaustive=False, programs=nprog,
                 translations=sum(r['translations'] for r in results), seconds=round(time.time() - t0, 1),
+                cpu_seconds=round(sum(r['cpu'] for r in results), 1),
+                slowest_jobs=sorted(((round(r['cpu'], 1), r['seed']) for r in results), reverse=True)[:4],
                 aborted_seeds=aborted, violation_counts=counts)
 
 
@@ -656,7 +757,7 @@ def replay(fi):
     vseed = int(fi.get('verif_seed', 0))
     tier = fi.get('tier', 'thorough')
     # the whole job of that seed is re-run (the generator RNG and the node hash counter are job-wide state), every
-    # violation is kept, and those on the recorded program / check decide
+    # violation is kept, and those of the recorded check on the recorded program decide
     if fi.get('seed') == 'hand':
         r = run_hand(env, vseed, keep_all=True)
     else:
@@ -674,5 +775,5 @@ if __name__ == '__main__':
     import json
     tier = sys.argv[1] if len(sys.argv) > 1 else 'quick'
     r = run(tier, int(os.environ.get('VERIF_SEED', '0')))
-    print(json.dumps({k: v for k, v in r.items() if k != 'rule'}, indent=1, default=str)[:6000])
+    print(json.dumps({k: v for k, v in r.items() if k != 'rule'}, indent=1, default=str)[:8000])
     print(r['rule'])
